@@ -108,6 +108,45 @@ func genImpl(ctx *common.Ctx, uid int) []implJob {
 		}
 		out[len(out)-1].Job.Caps = caps
 	}
+	// ---- the variable table of the package under load: some routines INSERT new globals (defvar, defparameter, setq
+	//      of a new name) and delete them (makunbound), the others bind and assign scope variables all the time (let,
+	//      a call with a parameter, dotimes, setq: each asks the table whether the name is a constant) ----
+	{
+		fn := fmt.Sprintf("c17vt-%d", uid)
+		setup := []string{fmt.Sprintf("(defun %s (a) (let ((b (+ a 1))) (setq b (+ b 1)) b))", fn), fmt.Sprintf("(%s 0)", fn)}
+		nw, nrd := 1+r.Intn(3), 1+r.Intn(3)
+		var bodies []string
+		var counts []int
+		for i := 0; i < nw; i++ {
+			var b strings.Builder
+			n := 60 + r.Intn(120)
+			for k := 0; k < n; k++ {
+				name := fmt.Sprintf("*c17vt-%d-%d-%d*", uid, i, k)
+				switch k % 4 {
+				case 0:
+					fmt.Fprintf(&b, "(defvar %s %d) ", name, k)
+				case 1:
+					fmt.Fprintf(&b, "(defparameter %s %d) ", name, k)
+				case 2:
+					fmt.Fprintf(&b, "(setq %s %d) ", strings.Trim(name, "*"), k)
+				default:
+					fmt.Fprintf(&b, "(defvar %s %d) (makunbound '%s) ", name, k, name)
+				}
+			}
+			last := fmt.Sprintf("*c17vt-%d-%d-%d*", uid, i, 0)
+			b.WriteString(okEntry(0, last, "0"))
+			bodies = append(bodies, b.String())
+			counts = append(counts, 1)
+		}
+		for i := 0; i < nrd; i++ {
+			loops := 1500 + r.Intn(2500)
+			body := fmt.Sprintf("(let ((sum 0)) (dotimes (k%d %d) (let ((y k%d)) (setq sum (+ sum (- (%s y) y))))) %s)", i, loops, i, fn,
+				okEntry(0, "sum", fmt.Sprint(2*loops)))
+			bodies = append(bodies, body)
+			counts = append(counts, 1)
+		}
+		mk("impl-vartable", setup, bodies, counts, nil, nil, 0, nil)
+	}
 	// ---- defmethod on shared generic functions + dispatch ----
 	{
 		var setup []string
